@@ -1667,6 +1667,57 @@ run_known_reproductions()
                     ra, a, rb, b % Np, ghat(ra, a, rb, b), est(ra, a, rb, b)));
     });
   }
+  { // block data: 1 ring of 8 detectors in 2 blocks of 4, half fan 2 (detectors 0 and 2 share a block); cf. C20_block_data_index_range_fails
+    const FanProjData model(1, 8, 0, 5);
+    const BlockData3D probe(1, 2, 0, 1);
+    bool ok = true;
+    for_canon(model, [&](int ra, int a, int rb, int b) { ok = ok && probe.is_in_data(ra / 1, a / 4, rb / 1, b / 4); });
+    candidate(ok, KEY_BLOCK,
+              "[FanProjData(1,8,0,5) with BlockData3D(1,2,0,1), 2 blocks of 4 crystals] detectors 0 and 2 lie in the fan and in one block: "
+              "BlockData3D::is_in_data(0,0,0,0) is false, apply_block_norm / make_block_data / iterate_block_norm index the block data out of range");
+  }
+  { // odd number of crystals per block: 1 ring of 12 detectors in 4 blocks of 3, half fan 2; GeoData3D as ML_estimate_... builds it
+    const int Rp = 1, Np = 12, tcpb = 3;
+    vh::Rng rng(5);
+    FanProjData model(Rp, Np, 0, 5), noisy(Rp, Np, 0, 5);
+    fill_sym(model, [&]() { return static_cast<float>(1 + rng.range(0, 7)); });
+    noisy = model;
+    for_canon(noisy, [&](int ra, int a, int rb, int b) { noisy(ra, a, rb, b) *= (4 + ((a * 5 + (b % Np) * 3) % 9)) / 8.F; });
+    GeoData3D meas(1, tcpb / 2, Rp, Np), ghat(1, tcpb / 2, Rp, Np);
+    make_geo_data(meas, noisy);
+    iterate_geo_norm(ghat, meas, model);
+    FanProjData data = model;
+    apply_geo_norm(data, ghat, true);
+    const FanProjData& cd = data;
+    const FanProjData& cm = model;
+    for_canon(model, [&](int ra, int a, int rb, int b) {
+      const int a2 = (a + tcpb) % Np, b2 = (b + tcpb) % Np;
+      const double f1 = static_cast<double>(cd(ra, a, rb, b)) / cm(ra, a, rb, b), f2 = static_cast<double>(cd(ra, a2, rb, b2)) / cm(ra, a2, rb, b2);
+      candidate(close_rel(f1, f2, 16 * 5.97e-8), KEY_GEO_ODD,
+                str("[FanProjData(1,12,0,5), 4 blocks of 3 crystals, GeoData3D(1,3/2,1,12)] entries (0,%d,0,%d) and (0,%d,0,%d) differ by one block but "
+                    "apply_geo_norm gives them the geometric factors %g and %g",
+                    a, b % Np, a2, b2, f1, f2));
+    });
+  }
+  { // 1 crystal per block: GeoData3D(.., 0, ..)
+    std::fflush(g_ops);
+    std::fflush(g_out);
+    std::fflush(g_orc);
+    const pid_t pid = fork();
+    if (pid == 0)
+      {
+        FanProjData model(2, 4, 1, 3);
+        GeoData3D mg(2, 0, 2, 4);
+        make_geo_data(mg, model);
+        _exit(0);
+      }
+    int status = 0;
+    waitpid(pid, &status, 0);
+    candidate(WIFEXITED(status) && WEXITSTATUS(status) == 0, KEY_GEO_ONE,
+              str("[make_geo_data(GeoData3D(2,0,2,4), FanProjData(2,4,1,3)), 1 transaxial crystal per block] terminates the process (%s %d): "
+                  "num_transaxial_detectors / (2*0)",
+                  WIFSIGNALED(status) ? "signal" : "exit", WIFSIGNALED(status) ? WTERMSIG(status) : WEXITSTATUS(status)));
+  }
   { // KL: 3 rings of 6 detectors, all ring differences, half fan 1
     const int Rp = 3, Np = 6, md = 2, h = 1;
     vh::Rng rng(2);
